@@ -1,6 +1,7 @@
 import MypyVerif.Proofs.VTable
 import MypyVerif.Proofs.ForRange
 import MypyVerif.Proofs.ErrEdges
+import MypyVerif.Proofs.ForZip
 import MypyVerif.Model.PyBind
 /-!
 # C05 — mypyc-compiled code behaves like the interpreted source (logic slices)
@@ -108,6 +109,48 @@ theorem dispatch_target_shape (e : Entry) (k : Cls) (h : e.target.definer = k) :
   cases ht : e.target with
   | direct d => rw [ht] at h; simp only [Target.definer] at h; subst h; exact Or.inl rfl
   | glue d f => rw [ht] at h; simp only [Target.definer] at h; subst h; exact Or.inr ⟨f, rfl⟩
+
+/-- **isMethodFinal_sound.**  Whenever `is_method_final` answers "final" for a class `c` and a name `m`, every
+    class `d` that has `c` in its MRO — every possible runtime class of a receiver typed `c` — resolves `m`
+    exactly as `c` does: to the same defining class, or (when `c` has no such method) not at all.  This is what
+    licenses the direct C call in `emit_method_call`, `a == b` as identity and Optional truthiness as
+    `is not None`.  The hypothesis is that `children` reaches all subclasses (`subclassesComplete`, re-checked on
+    every real ClassIR graph). -/
+theorem isMethodFinal_sound (H : Hier) (hcomplete : subclassesComplete H = true) (c : Cls) (m : Name)
+    (hc : c < H.length) (hfin : isMethodFinal H c m = true) :
+    ∀ d, d < H.length → c ∈ (H.rec d).mro → definerOf H d m = definerOf H c m := by
+  intro d hd hmem
+  by_cases hdc : d = c
+  · rw [hdc]
+  · have hsub : (subclasses H c).contains d = true := by
+      unfold subclassesComplete at hcomplete
+      simp only [List.all_eq_true, List.mem_range, Bool.or_eq_true, Bool.not_eq_true', beq_iff_eq] at hcomplete
+      rcases hcomplete c hc d hd with (h | h) | h
+      · have : (H.rec d).mro.contains c = true := by simpa using hmem
+        rw [this] at h; cases h
+      · exact absurd h hdc
+      · exact h
+    have hmem' : d ∈ subclasses H c := by simpa using hsub
+    unfold isMethodFinal at hfin
+    cases hk : definerOf H c m with
+    | some k =>
+      rw [hk] at hfin
+      simp only [List.all_eq_true, beq_iff_eq] at hfin
+      exact hfin d hmem'
+    | none =>
+      rw [hk] at hfin
+      simp only [List.all_eq_true, Option.isNone_iff_eq_none] at hfin
+      exact hfin d hmem'
+
+/-- a three-level chain in which only the grand-child defines the method (name 5): it is *not* final for the
+    root, although no direct child of the root has it -/
+def chainH : Hier :=
+  [ { isTrait := false, mro := [0],       methods := [],        children := [1] },
+    { isTrait := false, mro := [1, 0],    methods := [],        children := [2] },
+    { isTrait := false, mro := [2, 1, 0], methods := [(5, 50)], children := [] } ]
+
+example : subclassesComplete chainH = true ∧ isMethodFinal chainH 0 5 = false ∧ isMethodFinal chainH 2 5 = true
+    ∧ (subclasses chainH 0).contains 2 = true := by decide
 
 /-! ### non-vacuity: a hierarchy with a trait chain, a trait implemented by a base class, overrides below
 
@@ -392,3 +435,21 @@ theorem asCompiled_id (s : Sig) (h : s.posonly = []) : s.asCompiled = s := by
   cases s; simp_all [Sig.asCompiled]
 
 end PyBind
+
+namespace ForZip
+
+/-- **forZip_takes_what_zip_takes.**  For every non-empty list of operands (any number, any lengths): the loop
+    `ForZip` emits — exit tests in operand order, the first exhausted operand leaves the loop — executes its body
+    `min` times and takes from every operand exactly what CPython's `zip` takes: the shortest length, plus one more
+    item from each operand that precedes the first shortest one.  (The items taken from iterator / generator
+    operands are observable afterwards; the harness compares them with this closed form on every run.) -/
+theorem forZip_takes_what_zip_takes (lens : List Nat) (hne : lens ≠ []) (fuel : Nat) (hf : minLen lens < fuel) :
+    run fuel lens = closed lens := run_eq_closed_aux fuel lens hne hf
+
+-- zip(it, ('a', 'b')) with 5 items in `it`: two body executions, *three* items taken from `it`
+example : run 9 [5, 2] = (2, [3, 2]) ∧ closed [5, 2] = (2, [3, 2]) := by decide
+-- the tuple first: only two items are taken from `it`
+example : run 9 [2, 5] = (2, [2, 2]) := by decide
+example : run 9 [4, 2, 4] = (2, [3, 2, 2]) ∧ run 9 [0, 3] = (0, [0, 0]) ∧ run 9 [3, 0] = (0, [1, 0]) := by decide
+
+end ForZip
